@@ -98,7 +98,10 @@ class Oracle(simcheck.BaseOracle):
                 # must not have taken effect yet
                 if r["kind"] == "place":
                     voided = frac(o.simulated.size_voided) > 0    # runner removed while the placement was in flight (C09)
-                    if st != "PENDING" and st != "VIOLATION" and not (voided and st == "EXECUTION_COMPLETE"):
+                    # an order with nothing remaining (voided, or a dead replacement order placed by the script) is completed
+                    # by the completion loop, not by the request: no handler response has arrived
+                    by_loop = st == "EXECUTION_COMPLETE" and self.responses(o, "place") == r["resp0"] and frac(o.simulated.size_remaining) == 0
+                    if st != "PENDING" and st != "VIOLATION" and not (voided and st == "EXECUTION_COMPLETE") and not by_loop:
                         self.add("effect-too-early", "%s already %s at %d" % (who, st, pt))
                     if len(o.simulated.matched) > r["frags0"]:
                         self.add("pending-order-matched", "%s has fills while pending at %d" % (who, pt))
@@ -136,7 +139,8 @@ class Oracle(simcheck.BaseOracle):
             if r["eff"] is None and not r["done"]:
                 o = r["o"]
                 st = o.status.name if o.status else None
-                if r["kind"] == "place" and st not in ("PENDING", "VIOLATION") and not frac(o.simulated.size_voided) > 0:
+                by_loop = st == "EXECUTION_COMPLETE" and self.responses(o, "place") == r["resp0"] and frac(o.simulated.size_remaining) == 0
+                if r["kind"] == "place" and st not in ("PENDING", "VIOLATION") and not frac(o.simulated.size_voided) > 0 and not by_loop:
                     self.add("effect-without-update", "place of order %d took effect although no later update of its market was more than the delay away (status %s)" % (o._vidx, st))
         if not run.clock_ok:
             self.add("clock-not-publish-time", "utcnow() inside a strategy callback differed from the publish time of the update being processed")
